@@ -68,7 +68,7 @@ PROPS['C17'] = dict(
          '(alignment gaps, scratch behind `used`, leftovers of failed encodes) are not modelled; they are never read.')
 
 PROPS['C11'] = dict(
-    sess=[('sweep_c11', 600, 8000), ('sess_c11', 200, 3000), ('py_edges', 200, 3000)],
+    sess=[('sweep_c11', 600, 8000), ('sess_c11', 200, 3000), ('py_edges', 200, 3000), ('py_c11d', 150, 1500)],
     events='wrf', state=['conn', 'live', 'cp', 'ev'],
     monitors=[M.mon_c11],
     title='a dead connection handle stays dead and never touches the transport again',
